@@ -3,8 +3,8 @@ import SignaloModel.Proofs.Sources2Proofs
 /-!
 # C20 — A copied filter continues exactly like the original; wrappers are transparent
 
-Property theorems for C20 (statements are printed by `#check`, axioms by `#print axioms`;
-`bin/check C20` re-elaborates this file on every run and audits the axiom lists).
+The property theorems for C20: `#check` prints each statement, `#print axioms` its axioms;
+`bin/check C20` re-elaborates this file on every run and audits the axiom lists.
 -/
 open SignaloModel
 
